@@ -317,3 +317,8 @@ with denote_cond (c : mcond) : option form :=
   | MNested q => denote_pre q
   | MUniv v ty body => match denote_pre body with Some f => Some (FForall v ty f) | None => None end
   end.
+
+(* Operator.quantification_objects (pddl_operator.py, repair of D30): what the quantified conditions and effects of an
+   Operator built with the problem objects [objs] range over - the domain's constants, then the problem's objects
+   ({**domain.constants, **problem_objects}).  is_applicable / apply_op above take THIS table as their [objs]. *)
+Definition quantification_objects (dom : mdomain) (objs : objects) : objects := dupdate (d_consts dom) objs.
